@@ -9,6 +9,7 @@ import (
 	"os"
 	"os/exec"
 	"path/filepath"
+	"sort"
 	"strconv"
 	"strings"
 	"time"
@@ -175,6 +176,129 @@ func (e *a18Editor) incInvisible() bool {
 	return false
 }
 
+// samePair: a COMBINED edit — the same change of type spelling A -> B applied at 2..4 places at once:
+// constants, struct/union/exception fields, arguments, return types, throws entries, scope operations,
+// at any container depth. A constant's type change is the documented warning; every other place is a
+// breaking retype. (An auditor that remembered "pair A -> B already compared" would let the constant,
+// which is checked first and only warns, hide the errors.)
+func (e *a18Editor) samePair() bool {
+	type place struct {
+		decl, what string
+		pos        a18TyPos
+	}
+	groups := map[string][]place{}
+	var order []string
+	addSlot := func(decl, what string, at **a18GTy) {
+		var ps []a18TyPos
+		a18Positions(at, 0, &ps)
+		for _, pos := range ps {
+			k := (*pos.at).tok()
+			if _, ok := groups[k]; !ok {
+				order = append(order, k)
+			}
+			groups[k] = append(groups[k], place{decl, what, pos})
+		}
+	}
+	for _, s := range e.checkedSlots() {
+		addSlot(s.decl, s.what, s.ty)
+	}
+	for _, c := range e.nw.consts {
+		if k := "const:" + c.name; !e.touched[k] && e.inOld(k) {
+			addSlot(k, "const", &c.ty)
+		}
+	}
+	// candidate groups: at least two places; prefer a constant together with something that is audited as an error
+	var mixed, plain []string
+	for _, k := range order {
+		g := groups[k]
+		if len(g) < 2 {
+			continue
+		}
+		hasC, hasO := false, false
+		for _, pl := range g {
+			hasC = hasC || pl.what == "const"
+			hasO = hasO || pl.what != "const"
+		}
+		if hasC && hasO {
+			mixed = append(mixed, k)
+		} else {
+			plain = append(plain, k)
+		}
+	}
+	var key string
+	switch {
+	case len(mixed) > 0 && (len(plain) == 0 || e.r.Chance(75)):
+		key = mixed[e.r.Intn(len(mixed))]
+	case len(plain) > 0:
+		key = plain[e.r.Intn(len(plain))]
+	default:
+		return false
+	}
+	g := groups[key]
+	// shuffle; make sure a constant and a non-constant are among the first two when both exist
+	for i := len(g) - 1; i > 0; i-- {
+		j := e.r.Intn(i + 1)
+		g[i], g[j] = g[j], g[i]
+	}
+	for i, pl := range g {
+		if pl.what == "const" {
+			g[0], g[i] = g[i], g[0]
+			break
+		}
+	}
+	for i := 1; i < len(g); i++ {
+		if g[0].what == "const" && g[i].what != "const" {
+			g[1], g[i] = g[i], g[1]
+			break
+		}
+	}
+	n := 2 + e.r.Intn(3)
+	if n > len(g) {
+		n = len(g)
+	}
+	g = g[:n]
+	a := *g[0].pos.at
+	before := e.nw.canon(a)
+	var b *a18GTy
+	for try := 0; try < 12 && b == nil; try++ {
+		c := e.g.ty(e.nw, 2, -1)
+		if try > 6 {
+			c = &a18GTy{kind: a18TyBase, name: a18BaseNames[e.r.Intn(len(a18BaseNames))]}
+		}
+		if e.nw.canon(c) != before {
+			b = c
+		}
+	}
+	if b == nil {
+		return false
+	}
+	breaking, depth := false, 0
+	var whats, decls []string
+	seenWhat := map[string]bool{}
+	for _, pl := range g {
+		*pl.pos.at = b.clone()
+		if pl.what == "const" {
+			for _, c := range e.nw.consts {
+				if "const:"+c.name == pl.decl && pl.pos.depth == 0 {
+					c.value = a18ConstValueFor(e.r, c.ty)
+				}
+			}
+		} else {
+			breaking = true
+		}
+		if pl.pos.depth > depth {
+			depth = pl.pos.depth
+		}
+		if !seenWhat[pl.what] {
+			seenWhat[pl.what] = true
+			whats = append(whats, pl.what)
+		}
+		decls = append(decls, pl.decl)
+	}
+	sort.Strings(whats)
+	return e.rec(fmt.Sprintf("same-pair-x%d-%s", len(g), strings.Join(whats, "+")), breaking, g[len(g)-1].decl, depth, decls...)
+}
+
 // replaceField: a combined edit inside ONE field list: an optional field goes, a new field comes
 // (fresh id). Breaking iff the new one is required (the removal of an optional field is compatible).
 func (e *a18Editor) replaceField() bool {
@@ -207,6 +331,9 @@ func (e *a18Editor) replaceField() bool {
 }
 
 func init() {
+	for i := 0; i < 6; i++ {
+		a18Edits = append(a18Edits, a18Edit{"same-pair", func(e *a18Editor) bool { return e.samePair() }})
+	}
 	a18Edits = append(a18Edits, a18Edit{"replace-field", func(e *a18Editor) bool { return e.replaceField() }})
 	a18Edits = append(a18Edits, a18Edit{"replace-field", func(e *a18Editor) bool { return e.replaceField() }})
 	for i := 0; i < 3; i++ {
